@@ -377,6 +377,7 @@ fn profile_patch(seed: u64, benign: &Benign, base: &C03Doc) -> Vec<[u32; 10]> {
     let mut h = Harness::new("C17", seed, PROBES.len(), false);
     c03::install_pre(&h, base);
     h.set_policy(benign, &[]);
+    h.mute_probes = true;
     c03::run_patches(&mut h, base, false, &[]);
     let p = h.fs.profile();
     let _ = h.finish(Cfg::Benign, 0);
@@ -936,7 +937,9 @@ pub fn run(doc: &Doc, body: &C17Doc, trace: bool) -> RunResult {
 /// Returns (every patch reported Ok,).
 fn run_patches_c17(h: &mut Harness, base: &C03Doc, intact: &[bool], missing: &Option<(usize, bool)>) -> (bool,) {
     let _ = missing;
+    h.mute_probes = true; // run_patches counts C03's probes
     let pr = c03::run_patches_opts(h, base, false, intact, true);
+    h.mute_probes = false;
     (pr.all_ok && pr.applied == base.patches.len(),)
 }
 
